@@ -345,7 +345,7 @@ func exec(op string) string {
 
 var two256 = new(big.Int).Lsh(big.NewInt(1), 256)
 
-func b32(v *big.Int) []byte { return eclib.B32(new(big.Int).Mod(v, two256)) }
+func b32(v *big.Int) []byte            { return eclib.B32(new(big.Int).Mod(v, two256)) }
 func add(a *big.Int, d int64) *big.Int { return new(big.Int).Add(a, big.NewInt(d)) }
 
 func randScalar(r *Rng) *big.Int {
